@@ -37,6 +37,17 @@ func hoistChildren(x *expectation, X *xObj) {
 	}
 }
 
+// seedFeature qualifies failure classes with the (seed-constant) language feature of the diagram.
+func seedFeature(r *Rec) string {
+	switch {
+	case r.Files != nil:
+		return ":diagram-has-import"
+	case strings.Contains(r.Pre, "*"):
+		return ":diagram-has-glob"
+	}
+	return ""
+}
+
 func isIn(xs []*xObj, o *xObj) bool {
 	for _, x := range xs {
 		if x == o {
@@ -134,10 +145,13 @@ func c38(r *Rec) eng.Res {
 	if g1 == nil {
 		return bad("delete:addressed-board-missing-afterwards", "")
 	}
+	if g1.IsFolderOnly {
+		return eng.OK("n/a:board-became-folder-only", false) // nothing of its own left: it shows nothing
+	}
 	pre, post := Project(g0), Project(g1)
-	origin := ""
+	origin := seedFeature(r)
 	if len(r.Op.B) > 0 {
-		origin = ":" + targetOrigin(r)
+		origin += ":" + targetOrigin(r)
 	}
 	if elem, attr := splitAttrKey(r.Op.Key); attr != "" {
 		return c38Attr(r, pre, post, elem, attr, origin, bad)
